@@ -765,12 +765,22 @@ func (repo *Repository) MarkHeaderInvalid(ctx context.Context, hash bitcoin.Hash
 
 	// Check if hash was previously accepted
 	branch, height := repo.branches.Find(hash)
-	if branch != nil {
+	if branch == nil {
 		return nil // not found
 	}
 
 	if err := repo.branches.Trim(branch, height); err != nil {
 		return errors.Wrap(err, "trim")
+	}
+
+	// Forget the heights of the headers that were removed.
+	for h, hashHeight := range repo.heights {
+		if hashHeight < height {
+			continue
+		}
+		if b, _ := repo.branches.Find(h); b == nil {
+			delete(repo.heights, h)
+		}
 	}
 
 	longest := repo.branches.Longest()
